@@ -174,6 +174,9 @@ class Project(object):
         if not package.startswith('.'):
             return package
 
+        if not filename:  # a buffer without a file has no package to be relative to
+            raise ImportError('Not a package: {} ({})'.format(filename, package))
+
         root = filename
         for _ in range(len(package) - len(package.lstrip('.'))):
             root = os.path.dirname(root)
